@@ -1,5 +1,7 @@
 import SockModel.Model.DispatchLemmas
 import SockModel.Spec.C03
+import SockModel.Generated.Funcs
+import SockModel.Generated.Consts
 /-!
 # C03  Async events: in-order data, exactly-one disconnect, exactly-one connect
 
@@ -220,3 +222,43 @@ example :
     s.log = [.data 0 [9] 4] := by decide
 
 end SockModel.Dispatch
+
+/-! ## Source-derived tie, stage 4 (DESIGN.md §0.7.3): the dispatch chain of `DoOneSocketTask`
+
+`SockModel.Gen.SocketTask_chain` (Generated/Funcs.lean) is the per-socket `if / else if` chain of
+`Driver::DriverImpl::DoOneSocketTask(received)` as read from the clang AST of the current source: the conditions
+(`pfd.revents & MASK`, `i == received`, with the macro values of the poll bits) are translated, each branch is
+recognised by its exact statements.  `Consts.dispatchOrder` (regex extraction, used by the model and its theorems) stays;
+the tie says that `pick Consts.dispatchOrder` IS that chain. -/
+namespace SockModel.Props.C03
+open SockModel SockModel.Dispatch
+
+/-- the model's view of a `revents` word: `POLLIN` = 1, `POLLOUT` = 4, `POLLERR | POLLHUP` = 8 | 16 -/
+def revOf (r : Nat) : Rev := ⟨decide (r &&& 1 ≠ 0), decide (r &&& 4 ≠ 0), decide (r &&& 24 ≠ 0)⟩
+
+def toTask : Gen.TaskChoice → Option Task
+  | .readable => some .readable
+  | .writable => some .writable
+  | .error => some .error
+  | .next => none
+
+/-- **tie of the dispatch chain**: the model's `pick` with the order extracted into `Consts.dispatchOrder` is the
+`if / else if` chain of `DoOneSocketTask` as compiled from the current source, for every `revents` word -/
+theorem tie_pick (r : Nat) : pick Consts.dispatchOrder (revOf r) = toTask (Gen.SocketTask_chain r false) := by
+  simp only [Consts.dispatchOrder, pick, Gen.SocketTask_chain, revOf]
+  repeat' split
+  all_goals simp_all [toTask]
+
+/-- the socket `QuerySockets` returned (`i == received`) is served as readable whatever its `revents` (the
+`forcedRev` of Model/Tls.lean: `rd := true`) -/
+theorem tie_pick_received (r : Nat) :
+    pick Consts.dispatchOrder { revOf r with pin := true } = toTask (Gen.SocketTask_chain r true) := by
+  simp only [Consts.dispatchOrder, pick, Gen.SocketTask_chain, revOf]
+  repeat' split
+  all_goals simp_all [toTask]
+/-- ... and that chain is the order the model's theorems are about: readable before writable before error -/
+theorem tie_chain_order (r : Nat) : toTask (Gen.SocketTask_chain r false) = pick [0, 1, 2] (revOf r) := by
+  simp only [pick, Gen.SocketTask_chain, revOf]
+  repeat' split
+  all_goals simp_all [toTask]
+end SockModel.Props.C03
